@@ -817,6 +817,35 @@ func (cr *cliRun) runSet(results []gen.ResultSpec, splits [][][]int, assignments
 			if cr.slow {
 				add("encodeslow", cc, files, false)
 			}
+			if ai == 0 && len(parts) >= 2 && len(results) <= 200 {
+				// the same inputs under file names that contain glob metacharacters, each with a sibling that the
+				// name would match if it were taken as a pattern (`p[1].bin` ~ `p1.bin`, `p?.bin`, `p*.bin`): a file
+				// name is a file name. Two argument orders.
+				names := []string{"p1.bin", "p[1].bin", "p?.bin", "p*.bin", "p[!x].bin", "p\\1.bin"}
+				gfiles := make([]string, len(parts))
+				for p := range parts {
+					gfiles[p] = cr.path(fmt.Sprintf("g%d_%s", si, names[p%len(names)]))
+					data, err := os.ReadFile(files[p])
+					if err != nil {
+						panic(err)
+					}
+					if err := os.WriteFile(gfiles[p], data, 0o644); err != nil {
+						panic(err)
+					}
+				}
+				add("jsonb", cc, gfiles, false)
+				add("encode", cc, gfiles, false)
+				rc := cliCase{Results: results, To: cc.To}
+				var rfiles []string
+				for p := len(parts) - 1; p >= 0; p-- {
+					rc.Parts = append(rc.Parts, parts[p])
+					rc.Encs = append(rc.Encs, encs[p])
+					rfiles = append(rfiles, gfiles[p])
+				}
+				add("jsonb", rc, rfiles, false)
+				add("encode", rc, rfiles, false)
+				s.Count("cli:file_names_with_glob_metacharacters")
+			}
 			if ai < 2 || len(cc.Fifo) > 0 {
 				// the same inputs, one or more of them through a named pipe (every position over the runs)
 				fc := cc
